@@ -1,0 +1,193 @@
+//go:build verif && tinywasm
+
+package gtree
+
+// Contracts for the tinywasm variant (the build that powers the web page). The functions of wasm_*.go are verified
+// against the same executable specification (specRender, specLine, specDryReport, the row specification of the
+// parser, dfs) as the default build: "renders the same trees" becomes "satisfies the same contract".
+
+//@ pred wgenOK(rg *rootGenerator): rg != nil && rg.counter != nil && rg.scanner != nil && rg.nodeGenerator != nil && rg.nodeGenerator.parser != nil && md.parserOK(rg.nodeGenerator.parser) && 0 <= rg.scanner.pos && rg.scanner.pos <= len(rg.scanner.lines) && !rg.scanner.failed
+
+//@ func gtree.newRootGenerator
+//@   ensures fresh: fresh(result) && wgenOK(result) && result.scanner.pos == 0 && !result.nodeGenerator.parser.isSharpRoot && result.nodeGenerator.parser.spaces == 0 && result.nodeGenerator.parser.sep == ""
+
+//@ func gtree.rootGenerator.generate
+//@   requires ok: wgenOK(rg)
+//@   modifies Node.children, Node.parent, list.List.view, list.Element.backOf, rg.counter.n, rg.scanner.pos, rg.scanner.failed, rg.nodeGenerator.parser.isSharpRoot, rg.nodeGenerator.parser.spaces, rg.nodeGenerator.parser.sep
+//@   ensures roots [C17]: result1 == nil ==> (forall k int :: {result0[k]} 0 <= k && k < len(result0) ==> result0[k] != nil && result0[k].hierarchy == 1)
+//@   ensures consumed [C17]: result1 == nil ==> rg.scanner.pos == len(rg.scanner.lines) && !rg.scanner.failed
+//@   ensures readerr [C17]: rg.scanner.failed ==> result1 == rg.scanner.err
+//@   ensures blankonly [C17]: (forall j int :: {rg.scanner.lines[j]} 0 <= j && j < len(rg.scanner.lines) ==> md.allSpace(rg.scanner.lines[j])) ==> len(result0) == 0 && (result1 != nil ==> rg.scanner.failed)
+//@ loop gtree.rootGenerator.generate#1
+//@   invariant ok: wgenOK(rg)
+//@   invariant roots: forall k int :: {roots[k]} 0 <= k && k < len(roots) ==> roots[k] != nil && roots[k].hierarchy == 1
+//@   invariant open: stack != nil ==> chain(stack)
+//@   invariant closed: stack == nil ==> len(roots) == 0
+//@   invariant blanks: (forall j int :: {rg.scanner.lines[j]} 0 <= j && j < rg.scanner.pos ==> md.allSpace(rg.scanner.lines[j])) ==> len(roots) == 0 && stack == nil
+//@   decreases len(rg.scanner.lines) - rg.scanner.pos
+
+// ---------------------------------------------------------------------------------------------
+// wasm_tree_grower.go: the grower bakes the whole line (branch, space, name, newline) into brnch.value
+
+// bakedLines(last, mid, r): every node of the subtree of r carries its complete output line.
+//@ pred bakedLines(last branchFormat, mid branchFormat, r *Node): forall m *Node :: {specDesc(r, m)} specDesc(r, m) ==> m.brnch.value == specLine(last, mid, m)
+
+//@ func gtree.defaultGrower.assembleBranch
+//@   requires nn: dg != nil && current != nil
+//@   requires attached: current.hierarchy == 1 || current.parent != nil
+//@   modifies current.brnch.value, current.brnch.path
+//@   ensures baked [C17]: current.brnch.value == specLine(dg.lastNodeFormat, dg.intermedialNodeFormat, current)
+//@   ensures noval [C17]: !dg.enabledValidation ==> result == nil
+//@   ensures valid [C17]: dg.enabledValidation && result == nil ==> validElem(current.name) && fsValid(specNodePath(current))
+//@ loop gtree.defaultGrower.assembleBranch#1
+//@   invariant up: tmpParent != nil && tmpParent.hierarchy < current.hierarchy && (tmpParent.hierarchy == 1 || tmpParent.parent != nil)
+//@   invariant pre: specPrefix(dg.lastNodeFormat, dg.intermedialNodeFormat, tmpParent) ++ current.brnch.value == specPrefix(dg.lastNodeFormat, dg.intermedialNodeFormat, current.parent) ++ specConn(dg.lastNodeFormat, dg.intermedialNodeFormat, current)
+//@   decreases tmpParent.hierarchy
+
+//@ func gtree.defaultGrower.assemble
+//@   requires nn: dg != nil && current != nil
+//@   requires attached: current.hierarchy == 1 || current.parent != nil
+//@   modifies Node.brnch.value, Node.brnch.path
+//@   use lemma lemmaDescLevel, lemmaDescThroughChild, lemmaDescUp, lemmaDescUnique
+//@   decreases down(current)
+//@   ensures subtree [C17]: result == nil ==> bakedLines(dg.lastNodeFormat, dg.intermedialNodeFormat, current)
+//@   ensures stable: forall n *Node :: {n.brnch.value} !specDesc(current, n) ==> n.brnch.value == old(n.brnch.value)
+//@   ensures noval [C17]: !dg.enabledValidation ==> result == nil
+//@ loop gtree.defaultGrower.assemble#1
+//@   invariant self: current.brnch.value == specLine(dg.lastNodeFormat, dg.intermedialNodeFormat, current)
+//@   invariant done: forall j int, n *Node :: {specDesc(current.children[j], n)} 0 <= j && j < $i && specDesc(current.children[j], n) ==> n.brnch.value == specLine(dg.lastNodeFormat, dg.intermedialNodeFormat, n)
+//@   invariant stable: forall n *Node :: {n.brnch.value} !specDesc(current, n) ==> n.brnch.value == old(n.brnch.value)
+
+//@ func gtree.defaultGrower.grow
+//@   requires nn: dg != nil
+//@   requires roots: forall k int :: {roots[k]} 0 <= k && k < len(roots) ==> roots[k] != nil && roots[k].hierarchy == 1
+//@   modifies Node.brnch.value, Node.brnch.path
+//@   use lemma lemmaDescLevel, lemmaDescUnique
+//@   ensures grown [C17]: result == nil ==> (forall k int, n *Node :: {specDesc(roots[k], n)} 0 <= k && k < len(roots) && specDesc(roots[k], n) ==> n.brnch.value == specLine(dg.lastNodeFormat, dg.intermedialNodeFormat, n))
+//@   ensures noval [C17]: !dg.enabledValidation ==> result == nil
+//@ loop gtree.defaultGrower.grow#1
+//@   invariant done: forall k int, n *Node :: {specDesc(roots[k], n)} 0 <= k && k < $i && specDesc(roots[k], n) ==> n.brnch.value == specLine(dg.lastNodeFormat, dg.intermedialNodeFormat, n)
+
+// ---------------------------------------------------------------------------------------------
+// wasm_tree_spreader.go: the spreader concatenates the baked lines in pre-order
+
+// specBaked: the concatenation of the cached lines of the subtree of n in pre-order.
+//@ spec gtree.specBaked
+//@   requires nn: n != nil
+//@   decreases down(n), 1, 0
+func specBaked(n *Node) string {
+	return n.brnch.value + specBakedKids(n, len(n.children))
+}
+
+//@ spec gtree.specBakedKids
+//@   requires nn: n != nil
+//@   decreases down(n), 0, i
+func specBakedKids(n *Node, i int) string {
+	if i <= 0 || i > len(n.children) {
+		return ""
+	}
+	return specBakedKids(n, i-1) + specBaked(n.children[i-1])
+}
+
+//@ spec gtree.specBakedAll
+//@   decreases i
+func specBakedAll(roots []*Node, i int) string {
+	if i <= 0 || i > len(roots) {
+		return ""
+	}
+	return specBakedAll(roots, i-1) + specBaked(roots[i-1])
+}
+
+//@ lemma gtree.lemmaBakedIsRender
+//@   requires nn: n != nil
+//@   requires g: bakedLines(last, mid, n)
+//@   ensures eq: specBaked(n) == specRender(last, mid, n)
+//@   trigger specBaked(n), specRender(last, mid, n)
+//@   decreases down(n), 1, 0
+func lemmaBakedIsRender(last, mid branchFormat, n *Node) {
+	ghostAssert(specDesc(n, n))
+	lemmaBakedKidsIsRender(last, mid, n, len(n.children))
+}
+
+//@ lemma gtree.lemmaBakedKidsIsRender
+//@   requires nn: n != nil && 0 <= i && i <= len(n.children)
+//@   requires g: bakedLines(last, mid, n)
+//@   use lemma lemmaDescUp
+//@   ensures eq: specBakedKids(n, i) == specRenderKids(last, mid, n, i)
+//@   decreases down(n), 0, i
+func lemmaBakedKidsIsRender(last, mid branchFormat, n *Node, i int) {
+	if i > 0 {
+		lemmaBakedKidsIsRender(last, mid, n, i-1)
+		lemmaBakedIsRender(last, mid, n.children[i-1])
+	}
+}
+
+//@ lemma gtree.lemmaBakedAllIsRenderAll
+//@   requires rng: 0 <= i && i <= len(roots)
+//@   requires g: forall k int :: {roots[k]} 0 <= k && k < i ==> roots[k] != nil && bakedLines(last, mid, roots[k])
+//@   ensures eq: specBakedAll(roots, i) == specRenderAll(last, mid, roots, i)
+//@   trigger specBakedAll(roots, i), specRenderAll(last, mid, roots, i)
+//@   decreases i
+func lemmaBakedAllIsRenderAll(last, mid branchFormat, roots []*Node, i int) {
+	if i > 0 {
+		lemmaBakedAllIsRenderAll(last, mid, roots, i-1)
+		lemmaBakedIsRender(last, mid, roots[i-1])
+	}
+}
+
+//@ func gtree.defaultSpreader.spreadBranch
+//@   requires nn: current != nil
+//@   decreases down(current)
+//@   ensures baked [C17]: result == specBaked(current)
+//@ loop gtree.defaultSpreader.spreadBranch#1
+//@   invariant sofar: ret == current.brnch.value ++ specBakedKids(current, $i)
+
+//@ func gtree.defaultSpreader.write
+//@   modifies out, wfail
+//@   ensures ok [C17]: result == nil ==> out[w] == old(out[w]) ++ in && wfail == old(wfail)
+//@   ensures fail [C17]: result != nil ==> wfail
+//@   ensures frame: forall v any :: {out[v]} v != w ==> out[v] == old(out[v])
+
+//@ func gtree.defaultSpreader.spread
+//@   requires roots: forall k int :: {roots[k]} 0 <= k && k < len(roots) ==> roots[k] != nil
+//@   modifies out, wfail
+//@   ensures text [C17]: result == nil ==> out[w] == old(out[w]) ++ specBakedAll(roots, len(roots)) && wfail == old(wfail)
+//@   ensures fail [C17]: result != nil ==> wfail
+//@ loop gtree.defaultSpreader.spread#1
+//@   invariant sofar: branches == specBakedAll(roots, $i)
+
+// ---------------------------------------------------------------------------------------------
+// dry-run report of the wasm variant: baked lines (names not colour-wrapped), a newline, the counts line
+
+//@ spec gtree.specWasmDryReport
+//@   decreases i
+func specWasmDryReport(ext []string, roots []*Node, i int) string {
+	if i <= 0 || i > len(roots) {
+		return ""
+	}
+	return specWasmDryReport(ext, roots, i-1) + specBaked(roots[i-1]) + "\n" + specFmtCounts(specCountDirs(ext, roots[i-1]), specCountFiles(ext, roots[i-1])) + "\n"
+}
+
+//@ pred wcolorizeOK(cs *colorizeSpreader): cs != nil && cs.fileConsiderer != nil && cs.fileCounter != nil && cs.dirCounter != nil && cs.fileCounter != cs.dirCounter && cs.fileColor != nil && cs.dirColor != nil
+
+// The dry-run spreader of the wasm variant overwrites Node.name with its colour-wrapped form after the lines were
+// baked, which breaks the sibling-name invariant of the shared forest contracts; it is not under contract (C17 is
+// claimed for text output and for the accept/reject decision only).
+
+//@ func gtree.newTree
+//@   requires nn: cfg != nil
+//@   ensures tree [C17]: fresh(result) && result.roots == roots && result.grower != nil && result.spreader != nil && (cfg.encode == encodeDefault ==> isType(result.grower, defaultGrower) && as(result.grower, defaultGrower).lastNodeFormat == cfg.lastNodeFormat && as(result.grower, defaultGrower).intermedialNodeFormat == cfg.intermedialNodeFormat && as(result.grower, defaultGrower).enabledValidation == cfg.dryrun) && (cfg.encode != encodeDefault ==> isType(result.grower, nopGrower)) && (!cfg.dryrun && cfg.encode != encodeJSON ==> isType(result.spreader, defaultSpreader)) && (!cfg.dryrun && cfg.encode == encodeJSON ==> isType(result.spreader, jsonSpreader)) && (cfg.dryrun ==> isType(result.spreader, colorizeSpreader) && wcolorizeOK(as(result.spreader, colorizeSpreader)) && as(result.spreader, colorizeSpreader).fileConsiderer.extensions == cfg.fileExtensions)
+
+// Placeholders (assumed) for the parts of the wasm variant not yet under contract.
+//@ func gtree.colorizeSpreader.spread
+//@   assumed
+//@   modifies out, wfail, counter.n, Node.name
+//@ func gtree.jsonSpreader.spread
+//@   assumed
+//@   modifies out, wfail
+
+// Output of the wasm variant: the same rendering clause as OutputFromMarkdown of the default build.
+//@ func gtree.Output
+//@   modifies Node.children, Node.parent, Node.brnch.value, Node.brnch.path, Node.name, list.List.view, list.Element.backOf, counter.n, bufio.Scanner.pos, bufio.Scanner.failed, markdown.Parser.isSharpRoot, markdown.Parser.spaces, markdown.Parser.sep, out, wfail
+//@   use lemma lemmaBakedAllIsRenderAll
+//@   ensures render [C17]: exists c *config :: {witness(cfg)} fresh(c) && (c.encode == encodeDefault && !c.dryrun && result == nil ==> wfail == old(wfail) && (exists rs []*Node :: {witness(roots)} allRoots(rs) && out[w] == old(out[w]) ++ specRenderAll(c.lastNodeFormat, c.intermedialNodeFormat, rs, len(rs))))
